@@ -902,7 +902,7 @@ func isolated(c *Ctx, hc histCall) (entryResult, error) {
 		return entryResult{}, err
 	}
 	var r entryResult
-	if err := json.Unmarshal(out.Bytes(), &r); err != nil {
+	if err := json.Unmarshal(childResult(out.Bytes()), &r); err != nil {
 		return entryResult{}, fmt.Errorf("isolated run: %v: %s", err, clip(out.String()))
 	}
 	return r, nil
@@ -931,7 +931,7 @@ func isolatedTimed(hc histCall, d time.Duration) (entryResult, error, bool) {
 			return entryResult{}, fmt.Errorf("%v: %s", err, clip(out.String())), false
 		}
 		var r entryResult
-		if err := json.Unmarshal(out.Bytes(), &r); err != nil {
+		if err := json.Unmarshal(childResult(out.Bytes()), &r); err != nil {
 			return entryResult{}, err, false
 		}
 		return r, nil, false
@@ -958,7 +958,19 @@ func isolatedMain() {
 	r := runEntry(w, hc.Call, nil, tracedLoader(w, t, refuse))
 	r.Loads = fetchesOf(t.events())
 	b, _ := json.Marshal(r)
+	// the library logs its warnings ("spec: warning: invalid URI ...") to standard output: the result follows a marker
+	os.Stdout.Write([]byte("\n" + childResultMarker))
 	os.Stdout.Write(b)
+}
+
+const childResultMarker = "@@VERIF-RESULT@@"
+
+// childResult cuts the result out of what a child process wrote to its standard output.
+func childResult(out []byte) []byte {
+	if i := bytes.LastIndex(out, []byte(childResultMarker)); i >= 0 {
+		return out[i+len(childResultMarker):]
+	}
+	return out
 }
 
 func sortedSet(xs []string) []string {
